@@ -798,6 +798,9 @@ def family(name):
         # (so that the two switch nodes have minimal trap spaces whose projections overlap the other node's attractor)
         net.family_constraints.append(fOr([fAnd([off.trap(p_), on.attr(p_), fNot(fOr([specs.is_mintrap(on, M) for M in on.subspaces if in_space(p_, M)]))])
                                            for p_ in on.states]))
+        # ... and the core has a fixed point that is a trap space whatever the switch does (so that the minimal trap space
+        # of the "on" node is also reached through another branch, which is when minimal-space expansion skips that node)
+        net.family_constraints.append(fOr([net.trap(p_ + (None, None)) for p_ in on.states]))
         net.family_constraints += on.take_pending_defs() + off.take_pending_defs() + on.defs + off.defs
         return net
     if name == "TWOATT3":
